@@ -46,6 +46,7 @@ RULE = (
     "so instances compete; helpers: matrices with >= 2 rows and >= 2 columns, non-identical box / vector pairs"
 )
 ASSUMPTIONS = [
+    "far family: a fractional-coordinate 3-node pose and its 64 edited predictions translated by offsets up to ~1e6 (sums exact in float64): OKS must not change",
     "alias family: compute_oks called with the same array object in both roles and with two arrays whose roles are swapped between consecutive calls (identity clause on shared objects, arguments unchanged)",
     "history part: all ordered pairs (thorough: triples) of 30 compute_oks calls colliding in shapes with different stddev/scale options, each history in a forked child, compared with a fresh-process result",
     "coordinates come from the alphabet {NaN, 0, 1, 3, 10} (a node is either missing = NaN in both coordinates, or a grid point; "
@@ -79,7 +80,7 @@ ALPH = {
     "mat4": [NANPT, (0.0, 0.0), (1.0, 0.0), (3.0, 10.0)],
 }
 ALPH_ID = {k: i for i, k in enumerate(sorted(ALPH))}
-SHIFTS = [(7.0, -2.0), (-0.5, 123.25), (131072.0, -65536.0)]  # the last one: poses far from the origin (power-of-two offset: exact in float64)
+SHIFTS = [(7.0, -2.0), (-0.5, 123.25), (131072.0 + 341.0 / 1024.0, -(65536.0 + 683.0 / 1024.0))]  # the last one: poses far from the origin; 27 significant bits, so shifted coordinates are exact but their squares are not
 STD_VEC = [0.5, 1.0, 0.25]
 SCALE_VEC = [25.0, 4.0, 9.0]
 
@@ -1073,6 +1074,40 @@ def alias_family(part):
                 part.violation(case, "compute_oks modified the caller's arrays")
 
 
+FAR_GT = [(0.25, 0.5), (10.125, 0.75), (3.5, 10.375)]
+FAR_EDITS = [(0.0, 0.0), (341.0 / 1024.0, 0.0), (-0.125, 1.0 + 85.0 / 1024.0), (1.25, -0.75)]
+FAR_SHIFTS = [(1024.0, -2048.0), (131072.0 + 341.0 / 1024.0, -(65536.0 + 683.0 / 1024.0)), (1048576.0 + 7.0 / 1024.0, 524288.0 + 511.0 / 1024.0)]
+
+
+def far_family(part):
+    """Translation invariance for poses far from the origin: a 3-node pose with fractional (1/1024-grid) coordinates and
+    every prediction gt + (per-node choice of 4 fractional edits), translated by three large offsets whose sums with the
+    coordinates are exact in float64; OKS must equal the OKS of the untranslated pair (1e-9) for the default and two
+    other stddev / normalisation options."""
+    gt = arr([FAR_GT])
+    for edits in itertools.product(range(len(FAR_EDITS)), repeat=3):
+        pr = arr([[(FAR_GT[k][0] + FAR_EDITS[e][0], FAR_GT[k][1] + FAR_EDITS[e][1]) for k, e in enumerate(edits)]])
+        for kw in ({}, {"stddev": 0.5}, {"stddev": 0.5, "use_cocoeval": False}):
+            ref = float(oks_call(gt, pr, dict(kw))[0, 0])
+            for sh in FAR_SHIFTS:
+                sha = np.array(sh)
+                case = {"kind": "far", "edits": list(edits), "shift": list(sh), "opt": kw}
+                part.count()
+                part.transition()
+                key = f"far:{edits}:{sh}:{sorted(kw.items())}"
+                part.state(key)
+                part.nontriv(key)
+                part.sample(case, True)
+                try:
+                    got = float(oks_call(gt + sha, pr + sha, dict(kw))[0, 0])
+                except Exception as e:
+                    part.violation(case, f"compute_oks raised {type(e).__name__}: {e} on poses translated by {sh}")
+                    continue
+                part.outcome(f"far:{round(ref, 6)}")
+                if not (abs(got - ref) <= TOL_INV):
+                    part.violation(case, f"translation: OKS {fmt(ref)} becomes {fmt(got)} when both poses are translated by {sh} (options {kw}, edits {edits})")
+
+
 def run(ctx):
     core.setup_torch()
     from mc import history as _history
@@ -1184,9 +1219,15 @@ def run(ctx):
         _ENV.pop("env", None)
         shutil.rmtree(env["dir"], ignore_errors=True)
     alias_family(ctx)
+    far_family(ctx)
 
 
 def replay(case):
+    if isinstance(case, dict) and case.get("kind") == "far":
+        part = core.Part()
+        far_family(part)
+        hits = [m for c, m in part.viol if c.get("edits") == case.get("edits") and c.get("shift") == case.get("shift")]
+        return {"violates": bool(hits), "messages": hits[:2]}
     if isinstance(case, dict) and case.get("kind") == "alias":
         part = core.Part()
         alias_family(part)
